@@ -29,8 +29,46 @@ struct SinkA
 };
 static SinkA SA;
 
+// watchdog of the in-process runs: every hook event is activity; a search that neither visits nodes nor returns (it waits, sleeps or
+// spins outside the hooked code) is first told to stop - the run then counts as "did not end on its own" - and, if even that does
+// not bring it back, the harness leaves with a run marker so that the runner can attribute the hang to this run and go on
+static std::atomic<long> g_activity{0};
+static std::atomic<bool> g_run_active{false}, g_watchdog_forced{false};
+static void start_watchdog_once()
+{
+    static bool started = false;
+    if (started) return;
+    started = true;
+    std::thread([] {
+        long last = -1;
+        auto since = std::chrono::steady_clock::now();
+        bool told = false;
+        for (;;)
+        {
+            std::this_thread::sleep_for(std::chrono::milliseconds(100));
+            if (!g_run_active.load()) { last = -1; told = false; since = std::chrono::steady_clock::now(); continue; }
+            long cur = g_activity.load();
+            auto now = std::chrono::steady_clock::now();
+            if (cur != last) { last = cur; since = now; told = false; continue; }
+            long idle_ms = std::chrono::duration_cast<std::chrono::milliseconds>(now - since).count();
+            if (idle_ms > 6000 && !told)
+            {
+                told = true;
+                g_watchdog_forced.store(true);
+                if (SA.target) SA.target->stop();
+            }
+            if (idle_ms > 16000)
+            {
+                fprintf(stderr, "RUN-HUNG no activity for %ld ms, not even after stop\n", idle_ms);
+                _exit(9);
+            }
+        }
+    }).detach();
+}
+
 static void sink_a(const char* id, int64_t a, int64_t b)
 {
+    g_activity.fetch_add(1, std::memory_order_relaxed);
     long n = ++SA.seen[id];
     if (!strcmp(id, "stop_call")) { return; }
     if (!strcmp(id, "node") || !strcmp(id, "qnode"))
@@ -339,7 +377,13 @@ static void run_one(FILE* real_o, const RunSpec& r, std::mt19937_64& rng, const 
         SA.target = &s;
         if (r.stop_id == "before_thread_start") { SA.stop_delivered = true; s.stop(); }   // stop arrives before the search thread runs at all
         engine::verif::sink.store(sink_a);
+        start_watchdog_once();
+        g_watchdog_forced.store(false);
+        g_activity.fetch_add(1);
+        g_run_active.store(true);
         try { s.go(); } catch (const AbortRun&) { }   // hook points lie outside the output lock
+        g_run_active.store(false);
+        if (g_watchdog_forced.load()) { SA.forced = true; SA.stop_delivered = true; }
         engine::verif::sink.store(nullptr);
         SA.target = nullptr;
     }
@@ -672,7 +716,8 @@ int cmd_schedules(const Args& a)
     auto* ic = std::cin.rdbuf(&in);
     engine::verif::sink.store(sink_b);
     Uci& uci = the_uci();
-    std::thread reader([&] { uci.loop(); });
+    static std::atomic<bool> reader_done{false};
+    std::thread reader([&] { uci.loop(); reader_done.store(true); });
     // the data-race half of C06: is the flag the two threads share an atomic object? (compile-time fact of the code under test)
     const bool flag_atomic = !std::is_same_v<decltype(Search::stop_search), bool>;
     long n = 0;
@@ -686,6 +731,20 @@ int cmd_schedules(const Args& a)
         auto trim = [](std::string s) { while (!s.empty() && s.front() == ' ') s.erase(0, 1); while (!s.empty() && s.back() == ' ') s.pop_back(); return s; };
         std::string fen = trim(fld[0]), go = trim(fld[1]), pid = trim(fld[2]), cmds = trim(fld[4]), tag = trim(fld[5]);
         long pn = atol(fld[3].c_str());
+        { std::lock_guard<std::mutex> l(sm); park_id = ""; park_count = 0; }
+        out.clear();
+        if (tag.find("+terminal") != std::string::npos)
+        {
+            // an earlier go of the same session on a finished game (mate / stalemate on the board): whatever it answers, the
+            // session goes on and the next search must be as responsive as any other
+            static const char* term[] = {"R5k1/5ppp/8/8/8/8/8/6K1 b - - 0 1", "7k/5Q2/6K1/8/8/8/8/8 b - - 0 1"};
+            in.push(std::string("position fen ") + term[n % 2]);
+            in.push(n % 4 < 2 ? "go depth 2" : "go infinite");
+            out.wait_line("bestmove", 3000);
+            in.push("stop");
+            std::this_thread::sleep_for(std::chrono::milliseconds(50));
+            out.clear();
+        }
         {
             std::lock_guard<std::mutex> l(sm);
             park_id = pid; park_count = pn; seenB.clear(); parked = false; released = false; stop_seen = false; visits_after_stopB = -1; visitsB = 0;
@@ -795,12 +854,15 @@ int cmd_schedules(const Args& a)
         n++;
     }
     in.push("quit");
+    // a reader that is stuck (e.g. on the output lock) must not hang the harness: the results are complete at this point
+    for (int i = 0; i < 100 && !reader_done.load(); ++i) std::this_thread::sleep_for(std::chrono::milliseconds(50));
+    fclose(o);
+    fprintf(stderr, "schedules: %ld schedules replayed%s\n", n, reader_done.load() ? "" : " (the reader thread did not leave its loop)");
+    if (!reader_done.load()) _exit(0);
     reader.join();
     engine::verif::sink.store(nullptr);
     std::cout.rdbuf(oc);
     std::cin.rdbuf(ic);
-    fclose(o);
-    fprintf(stderr, "schedules: %ld schedules replayed\n", n);
     return 0;
 }
 
